@@ -283,6 +283,8 @@ class _Zlib:
                 if (isinstance(data, Packed) and data.codec == "zlib" and wbits == -15
                         and data.lo == (0, 2) and data.hi == (None, -1)):
                     return data.payload
+                if isinstance(data, (bytes, TokBytes)) and len(data) == 0:
+                    return b""  # zlib: no input, no output (checked against the real module on every replay)
                 raise ValueError("invalid deflate data")
         return D()
 
@@ -297,6 +299,8 @@ class _Simple:
     def decompress(self, data, *a, **k):
         if isinstance(data, Packed) and data.codec == self.name and data.lo == 0 and data.hi is None:
             return data.payload
+        if self.name == "bz2" and isinstance(data, (bytes, TokBytes)) and len(data) == 0:
+            return b""  # bz2.decompress(b"") == b"" ; lzma.decompress(b"") raises LZMAError
         raise ValueError("invalid data")
 
 
